@@ -38,6 +38,7 @@ SPEC = {
     'memcpy': dict(ret='ptr', null=False, deref=(0, 1)),
     'memset': dict(ret='ptr', null=False, deref=(0,)),
     'snprintf': dict(ret='int', deref=(0, 2)),
+    'vsnprintf': dict(ret='int', deref=(0, 2)),
     'sprintf': dict(ret='int', deref=(0, 1)),
     'fprintf': dict(ret='int'),
     'printf': dict(ret='int'),
@@ -479,20 +480,51 @@ def h_strlen(it, st, args, node):
     return [(st, t)]
 
 
-def h_snprintf(it, st, args, node):
+def fmt_nonempty_with(it, st, fmt, extra):
+    """does this printf call write at least one character?  literal text, or a conversion that always prints (numbers, %c, %p), or a
+    %s whose argument is known to be a non-empty string"""
+    import re
+    if fmt_nonempty(fmt):
+        return True
+    convs = re.findall(r'%[-+ #0]*([\d*]*)(?:\.([\d*]+))?(?:hh|h|ll|l|z|j|t|L)?([diouxXeEfgGcspn%])', fmt)
+    i = 0
+    for width, prec, c in convs:
+        if c == '%':
+            continue
+        if width == '*':
+            i += 1
+        if prec == '*':
+            i += 1
+        a = extra[i] if i < len(extra) else None
+        i += 1
+        if c in 'diouxXeEfgGcp':
+            return True
+        if c == 's' and not prec:
+            if isinstance(a, Str) and a.text().split('\0')[0]:
+                return True
+            if isinstance(a, Ref) and msg_state(it, st, a.loc, a.path) == 'nonempty':
+                return True
+    return False
+
+
+def h_snprintf(it, st, args, node, extra=None):
     dst = args[0]
     fmt = args[2] if len(args) > 2 else None
     if isinstance(dst, Ref):
-        ne = isinstance(fmt, Str) and fmt_nonempty(fmt.text())
+        ne = isinstance(fmt, Str) and fmt_nonempty_with(it, st, fmt.text().split('\0')[0], list(args[3:]) if extra is None else extra)
         set_msg(it, st, dst.loc, dst.path, 'nonempty' if ne else 'unknown')
         st.trace.append(('msgwrite', dst, fmt, node_loc(node), node.get('_mac')))
         it.rule.on_store(it, st, dst.loc, dst.path + '<snprintf>', fmt, node)
     else:
         it.rule.on_deref(it, st, dst, node)
-    for a in args[3:]:
-        pass
     t = Term(('api', 'snprintf', site(node)))
     return [(st, t)] if not st.dead else []
+
+
+def h_vsnprintf(it, st, args, node):
+    """vsnprintf(dst, size, fmt, ap) inside a variadic wrapper: the variable arguments are those of the enclosing (inlined) call"""
+    va = it.va_stack[-1] if getattr(it, 'va_stack', None) else []
+    return h_snprintf(it, st, args[:3], node, extra=list(va))
 
 
 def h_strcpy(it, st, args, node):
@@ -676,6 +708,7 @@ def build_model(overrides=None):
     m['strcmp'] = _str_cmp('strcmp')
     m['memset'] = h_memset
     m['snprintf'] = h_snprintf
+    m['vsnprintf'] = h_vsnprintf
     _g = m['strcspn']
     m['strcspn'] = lambda it, st, args, node: (h_strcspn(it, st, args, node) or _g(it, st, args, node))
     m['json_string_value'] = h_json_string_value
